@@ -34,6 +34,9 @@ LOCAL, PEER = '10.0.0.1', '10.0.0.2'
 CLASSES = {
     'hdr-marker': (('await-open', 'openconfirm', 'established'), {(1, 1)}),
     'hdr-short': (('await-open', 'openconfirm', 'established'), {(1, 2)}),
+    # a stream that lost framing: wrong Marker AND a length out of range (whatever sits in the type octet, 3 included): either
+    # error names what is wrong (ExaBGP checks the Marker first), and it is never the silent close of RFC 4271 6.4
+    'hdr-marker-and-length': (('await-open', 'openconfirm', 'established'), {(1, 1), (1, 2)}),
     'hdr-long': (('await-open', 'openconfirm', 'established'), {(1, 2)}),
     'hdr-typelen': (('await-open', 'openconfirm', 'established'), {(1, 2)}),
     'hdr-unknown-type': (('await-open', 'openconfirm', 'established'), {(1, 3)}),
@@ -64,7 +67,7 @@ CLASSES = {
     'notif-badlen': (('await-open', 'openconfirm', 'established'), None),
 }
 # errors RFC 4271 6.1 / 6.2 / 6.6 leave no choice about: the connection is closed with a NOTIFICATION
-MUST_CLOSE = {'hdr-marker', 'hdr-short', 'hdr-long', 'hdr-typelen', 'hdr-unknown-type', 'open-version', 'open-peer-as', 'open-id-zero', 'open-hold-1', 'open-hold-2',
+MUST_CLOSE = {'hdr-marker', 'hdr-marker-and-length', 'hdr-short', 'hdr-long', 'hdr-typelen', 'hdr-unknown-type', 'open-version', 'open-peer-as', 'open-id-zero', 'open-hold-1', 'open-hold-2',
               'unexpected-keepalive', 'unexpected-update', 'unexpected-refresh', 'unexpected-open'}
 STATE_SUB = {'await-open': 1, 'openconfirm': 2, 'established': 3}
 
@@ -124,6 +127,7 @@ def generate(rng, tier: str, index: int) -> dict:
         # 'peer-only': the peer announces Extended Message, ExaBGP is configured not to: the limit stays 4096 (RFC 8654 4)
         'extmsg': rng.choice(['none', 'none', 'peer-only']),
         'enh_refresh': rng.chance(0.5),  # the peer announces Enhanced Route Refresh or only the plain one
+        'local_auto': rng.chance(0.15),  # `local-as auto`: ExaBGP's OPEN waits for the peer's, so 'await-open' is before anything was sent
     }  # fmt: skip
 
 
@@ -135,6 +139,10 @@ def injection(spec: dict, spk: Speaker, sess, plan) -> bytes | None:
         m = bytearray(R.MARKER)
         m[(a * 13) % 16] ^= 1 << (a % 8)
         return R.message(R.KEEPALIVE, marker=bytes(m))
+    if cls == 'hdr-marker-and-length':
+        m = bytearray(R.MARKER)
+        m[(a * 7) % 16] ^= 0x80 >> (a % 8)
+        return R.message([3, 4, 3, 2, 0, 1][a % 6], b'\x00' * (a % 4), length=[0, 18, 5000, 65535, 7, 4097][(a // 2) % 6], marker=bytes(m))
     if cls == 'hdr-short':
         return R.message(R.KEEPALIVE, length=[0, 1, 18, 17, 10][a % 5])
     if cls == 'hdr-long':
@@ -208,7 +216,7 @@ def execute(plan: dict) -> dict:
     w = make_world(plan)
     peer_as = 65001 if plan['ibgp'] else 65002
     neighbor = {
-        'peer_ip': PEER, 'local_ip': LOCAL, 'local_as': 65001, 'peer_as': peer_as, 'router_id': LOCAL, 'hold': plan['hold'],
+        'peer_ip': PEER, 'local_ip': LOCAL, 'local_as': 'auto' if plan.get('local_auto') else 65001, 'peer_as': peer_as, 'router_id': LOCAL, 'hold': plan['hold'],
         'families': [(1, 1)], 'caps': {'route-refresh': True, 'extended-message': False} if plan.get('extmsg') == 'peer-only' else {'route-refresh': True}, 'api': {'processes': ['h1']},
         'static': ['route 192.0.2.0/24 next-hop self'],
     }  # fmt: skip
